@@ -41,6 +41,11 @@ CHECKS = {
             "For each of 33 corpus documents (scalars, containers, streams whose every line-prefix is a complete document, multi-document streams, null-like first documents, trailing comment regions, multi-byte tails, BOM) x chunkings {1, 3, whole} x entry points {from_reader, with_deserializer_from_reader, read iterator} x error kinds: the k-th read fails for every k, the reader fails after every byte offset, and the stream ends inside every multi-byte character. If the instrumented reader really returned the error, single-document entry points must return Err (never a value from the truncated prefix) and the iterator's Ok items must be a prefix of the fault-free items, contain at least one Err, and end. max_reader_input_bytes in {0,1,n-2..n+2}: over the cap -> Err, within -> identical to no cap; endless readers must fail after pulling at most cap + 32 KiB. Writer: for every value of the C13 corpus (<=3 nodes quick, <=4 thorough) the k-th write fails for every k: Err(IO) with the injected kind, accepted bytes a prefix of the fault-free output.",
             "Trusted: the instrumented reader/writer (they keep failing after the first injected error). Conventions: the cap applies to the decoded text (a BOM eaten by the decoder is not counted); which error variant reports a reader failure is counted but not judged (the statement demands 'an error').",
             "DESIGN.md §3 C10"),
+    "C11": ("model_checking",
+            "explicit-state BFS (stateright) over document histories with the real library as transition function; every reachable history state judged against the per-document oracle",
+            "All sequences of up to N documents (quick 4, thorough 5) over 16 document kinds (valid maps, empty, '~', 'null', defines an anchor, aliases an anchor of an earlier document, type error in the first / last node, syntax error, unterminated flow, errors at the very first token, '...' end marker with trailing comment) rendered with 3 separator styles. For every history the real from_multiple, from_slice_multiple, read (drained with a hard item cap), from_str and from_reader are run on the stream and compared with the list obtained by classifying each document on its own text: batch = values of the non-null documents or Err; iterator = the same items in order, continuing after type-level errors, ending after the first syntax-level error, always terminating; single-document entry points reject any second document. stateright explores the full space (1+16+16^2+...), is run twice (state counts must agree) and its three 'sometimes' coverage properties must be discovered.",
+            "Trusted: classification of a document on its own text (raw parser rejects = syntax-level). Whether the iterator can continue after an 'unknown anchor' parser error is treated as unspecified (either is accepted).",
+            "DESIGN.md §3 C11"),
     "C12": ("model_checking",
             "bounded-exhaustive enumeration of scalar values x positions x serializer option vectors, identity round-trip oracle on the real serializer and deserializer",
             "All strings up to the length bound over a 52-symbol adversarial alphabet plus 150 look-alike words, in 12 positions (root, sequence item, nested item, map value/key, flow item/value/key, struct field, newtype/tuple variant payload, map inside sequence) under every combination of quote_all, yaml_12, prefer_block_scalars, compact_list_indent, tagged_enums x indent steps x two fold widths; all integer boundaries of every width; a complete f32 sub-lattice (thorough: all 2^32 patterns) and an f64 boundary lattice; chars, unit, options, byte arrays. Each value is serialized by the real serializer, must scan as exactly one document in saphyr-parser and must read back as the identical value; emitted floats must match the YAML float grammar.",
